@@ -224,7 +224,11 @@ var c47Apps = []uint64{1, 0xff, 0x100, 0x2d, 0x2e2d, 0xffffffffffffffff, 0x00fff
 
 var c47Names = []string{"", "a", "ab", "abc", "a\x00", "a\xff", "a\xff\xff", "\xff", "\xff\xff", "\x00", "\x00\x00", "b", "-", ".", "b\xfe"}
 
-func c47GenKey(rt *rapid.T, lbl string) string {
+// c47GenKey draws a box key; most keys of a case fall under the case's two "busy" applications so that prefixes are shared.
+func c47GenKey(rt *rapid.T, lbl string, busy []uint64) string {
+	if len(busy) > 0 && rapid.IntRange(0, 9).Draw(rt, lbl+"busy") < 7 {
+		return c47BoxKey(c47PickFrom(rt, lbl+"bapp", busy), rapid.SampledFrom(c47Names).Draw(rt, lbl+"bn"))
+	}
 	switch rapid.IntRange(0, 19).Draw(rt, lbl+"K") {
 	case 0:
 		return "c\xff\xff" + rapid.SampledFrom(c47Names).Draw(rt, lbl+"n")
@@ -329,7 +333,7 @@ func c47GenVoting(rt *rapid.T, lbl string) trackerdb.BaseVotingData {
 	var v trackerdb.BaseVotingData
 	b := rapid.SliceOfN(rapid.Byte(), 32, 32).Draw(rt, lbl+"vid")
 	copy(v.VoteID[:], b)
-	v.SelectionID[0] = rapid.Byte().Draw(rt, lbl+"sel")
+	v.SelectionID[0] = rapid.Byte().Draw(rt, lbl+"sel") | 1 // a StateProofID without a SelectionID is illegal (and repaired by a sqlite migration)
 	v.VoteFirstValid = basics.Round(rapid.Uint64Range(0, 20).Draw(rt, lbl+"vfv"))
 	v.VoteLastValid = basics.Round(rapid.Uint64Range(1, 600).Draw(rt, lbl+"vlv"))
 	v.VoteKeyDilution = rapid.Uint64Range(1, 10000).Draw(rt, lbl+"vkd")
